@@ -197,6 +197,14 @@ def run(c, facts, tier):
                 how = "closure-result"
             elif up.get("k") == "mcall" and up["m"] in ("unwrap_or_else", "unwrap_or", "ok", "unwrap_or_default", "is_ok", "is_err", "unwrap", "expect") and up.get("recv") is node:
                 how = "swallowed:" + up["m"]
+            elif up.get("k") == "match" and up.get("scrut") is node:
+                # `match call(..) { Ok(..) => .., Err(e) => <no return, no ?> }`: the error ends in the Err arm
+                errs = [a_ for a_ in up["arms"] if any(pc_.get("k") == "tstruct" and pc_["segs"][-1] == "Err" for pc_ in rx.pat_cases(a_["pat"]))]
+                passes = [a_ for a_ in errs if find_all(a_["body"], lambda n_: n_.get("k") in ("return", "try")) or (rx.peel(a_["body"]).get("k") == "call" and rx.path_str(rx.peel(a_["body"])["f"]) == "Err")]
+                if errs and not passes:
+                    how = "swallowed:match"
+                elif errs and len(passes) == len(errs):
+                    how = "tail-of-match" if parents.get(id(up)) is None or parents.get(id(up), {}).get("k") in (None, "fn") else "?"
             elif up.get("k") == "let" and up["pat"]["k"] == "wild":
                 how = "discarded:let _"
             elif up.get("k") == "expr" and up.get("semi"):
